@@ -1031,6 +1031,7 @@ class Element(UnicodeMixin):
         else:
             if index < len(self.children) and isinstance(value, Element):
                 self.children.insert(index, value)
+                value.parent = self
 
     def __eq__(self, rhs):
         return (isinstance(rhs, Element) and
